@@ -1,6 +1,7 @@
 import ClusterVerif.Spec.C08
 import Mathlib.Data.List.Basic
 import Mathlib.Data.List.Nodup
+import Mathlib.Data.List.Perm.Basic
 /-! C08 — helper lemmas for Props/C08. -/
 namespace CV.C08
 theorem wrap32_id (i : Int) (h : inInt32 i = true) : wrap32 i = i := by
@@ -174,6 +175,40 @@ theorem originsSub_trans {a b c : List Origin} (h1 : originsSub a b = true) (h2 
   obtain ⟨o'', ho'', e'⟩ := h2 o' ho'
   exact ⟨o'', ho'', e.trans e'⟩
 
+/-! ### sort.Strings and permutations -/
+
+theorem insertS_perm (x : String) : ∀ l, (insertS x l).Perm (x :: l)
+  | [] => by simp [insertS]
+  | y :: ys => by
+    unfold insertS
+    by_cases h : x ≤ y
+    · simp [h]
+    · simp only [h, if_false]
+      exact ((insertS_perm x ys).cons y).trans (List.Perm.swap x y ys)
+
+theorem sortS_perm : ∀ l, (sortS l).Perm l
+  | [] => by simp [sortS]
+  | x :: xs => by
+    unfold sortS
+    exact (insertS_perm x (sortS xs)).trans ((sortS_perm xs).cons x)
+
+theorem isPerm_of_sortS_eq {a b : List String} (h : sortS a = sortS b) : a.isPerm b = true := by
+  rw [List.isPerm_iff]
+  exact (sortS_perm a).symm.trans (h ▸ sortS_perm b)
+
+theorem metaNonEmpty_perm {a b : List (String × String)} (ha : (a.map (·.1)).Nodup) (hb : (b.map (·.1)).Nodup)
+    (h1 : metaSub a b = true) (h2 : metaSub b a = true) : (metaNonEmpty a).isPerm (metaNonEmpty b) = true := by
+  rw [List.isPerm_iff]
+  have na : (metaNonEmpty a).Nodup := (List.Nodup.of_map _ ha).filter _
+  have nb : (metaNonEmpty b).Nodup := (List.Nodup.of_map _ hb).filter _
+  rw [List.perm_ext_iff_of_nodup na nb]
+  rw [metaSub_iff] at h1 h2
+  intro kv
+  obtain ⟨k, v⟩ := kv
+  simp only [metaNonEmpty, List.mem_filter, bne_iff_ne, ne_eq]
+  constructor
+  · rintro ⟨hm, hk⟩; exact ⟨lookupKV_mem (h1 k v hm hk), hk⟩
+  · rintro ⟨hm, hk⟩; exact ⟨lookupKV_mem (h2 k v hm hk), hk⟩
 /-! ### expiry, status tables -/
 
 theorem noExpiry_mk (s : Int) : (⟨s, 0⟩ : Time).noExpiry = (s == Time.zero.sec || s == 0) := by
